@@ -8,7 +8,7 @@ import subprocess
 import time
 
 from . import spawn_scen
-from .common import (BIN, ToolError, build_harness, finish, load_findings, log, save_replay, tlc_mc,
+from .common import (run_harness, BIN, ToolError, build_harness, finish, load_findings, log, save_replay, tlc_mc,
                      validate_sharded, workdir, write_evidence, WORK)
 
 PREFIX = {p: p + "_" for p in ("C05", "C06", "C07", "C08", "C15", "C17", "C18")}
@@ -40,9 +40,6 @@ def run(pid, tier, seed, replay=None):
     t0 = time.time()
     build_harness()
     wd = workdir("spawn_" + pid)
-    for d in (os.path.join(WORK, "vr"),):
-        os.makedirs(d, exist_ok=True)
-        os.chmod(d, 0o777)
     mc = []
     if replay is None:
         scs = scenarios(pid, tier, seed)
@@ -54,8 +51,7 @@ def run(pid, tier, seed, replay=None):
         for s in scs:
             f.write(json.dumps(s) + "\n")
     trace_path = os.path.join(wd, "trace.ndjson")
-    r = subprocess.run([os.path.join(BIN, "spawn_replay"), scen_path, trace_path], stdin=subprocess.DEVNULL,
-                       stdout=subprocess.PIPE, stderr=subprocess.PIPE, text=True, timeout=1500)
+    r = run_harness([os.path.join(BIN, "spawn_replay"), scen_path, trace_path], 1500)
     if r.returncode != 0:
         log(r.stderr[-3000:])
         raise ToolError("spawn_replay failed with status %d" % r.returncode)
